@@ -165,14 +165,17 @@ class EnvRecorder:
 
         def getitem(env, key):
             try:
+                # the first frame that is not the mapping machinery itself (Mapping.get / __contains__, os.getenv)
+                # must be code of the library: lookups that the standard library makes on its own account
+                # (subprocess searching PATH for a command the library runs) are not variables the library reads
                 f = sys._getframe(1)
-                for _ in range(6):
-                    if f is None:
-                        break
-                    if os.path.realpath(f.f_code.co_filename).startswith(src):
-                        rec.add(str(key))
+                for _ in range(4):
+                    if f is None or os.path.basename(f.f_code.co_filename) not in ("_collections_abc.py", "os.py"):
                         break
                     f = f.f_back
+                if (f is not None and isinstance(key, str) and re.fullmatch(r"[A-Za-z_][A-Za-z0-9_]*", key)
+                        and os.path.realpath(f.f_code.co_filename).startswith(src)):
+                    rec.add(key)
             except Exception:  # pragma: no cover
                 pass
             return orig(env, key)
@@ -549,7 +552,7 @@ ROUTES = ("reader", "catalog", "calls", "probe")
 
 def gen_cases(ctx, base, grid, dims, loggers, modules):
     rng = random.Random(ctx.rng.getrandbits(64))
-    ncases = max(ctx.n(30, 260), -(-len(grid) // 2))       # quick: two entries of the grid per case, the whole grid
+    ncases = max(ctx.n(30, 180), -(-len(grid) // 2))       # quick: two entries of the grid per case, the whole grid
     per_case_grid = 2 if ctx.quick() else 3
     cases, g = [], 0
     for idx in range(ncases):
@@ -693,7 +696,8 @@ class CaseRunner:
                         gen.vlog.clear()
                         if r == "calls":
                             gen.reseed()     # a used object: direct calls continue the stream, start it again
-                    chunks = run_route(self.ctx, case, setting, r, gen, "%d_%d_%s" % (case["idx"], si, r))
+                    # the cache directory is an input, not ambient state: the same for every setting of the case
+                    chunks = run_route(self.ctx, case, setting, r, gen, "%d_%s" % (case["idx"], r))
                     events = list(gen.vlog)
                     names, rows = rows_of(chunks)
                     if needs_sort(case, setting, r):
@@ -783,7 +787,10 @@ def encode(base, ctx, case, route, res, ref_names, ref_rows, neutral, lims, w, z
     cras, cdecs = base.clamp_near_ties(ctx, ras, decs, lims)
     crras, crdecs = base.clamp_near_ties(ctx, rras, rdecs, lims)
     bits_same = names == ref_names and hexed(rows) == hexed(ref_rows)
-    same_neutral = neutral is not None and "rows" in neutral and names == neutral["names"] and hexed(rows) == hexed(neutral["rows"])
+    if neutral is None or "rows" not in neutral:
+        same_neutral = bits_same      # the neutral run of this route is reported on its own; the reference stands in
+    else:
+        same_neutral = names == neutral["names"] and hexed(rows) == hexed(neutral["rows"])
     m = case["m"]
     if w is None and z is None:
         wt, zt = "[]", "[]"
